@@ -62,3 +62,27 @@ CLAIMED.update({
    text="Decides the evaluator and the removal sites: per path condition (attribute id == \"not\"/\"all\"/\"any\"/\"feature\") the returned term must be the Rust cfg operator; several cfg attributes are conjoined; the predicate is applied un-negated to nonterminals, alternatives and conversions (remove_disabled_decls + lower). Behavioural equality with the pruned grammar is NOT decided.",
    note="trusted: rustc MIR; term evaluator (rules/symex.py)"),
 })
+CLAIMED.update({
+ "C01": dict(level="other", design="§2 C01", technique="static analysis: symbolic evaluation of the MIR of the table writer (lr1::codegen::parse_table) and of the 15 ParserAction reader bodies (lalrpop-util), template rules for the emitted readers, dominance rule for the integer-width selection",
+   text="Decides the table-codec and width clauses: shift = s+1, reduce = -(p+1), error = 0 on the writer side; readers invert it exactly (all three integer widths, emitted accepts/expected_tokens/goto default); i8/i16 are selected only under max(#states,#reductions) <= 127/32767. Construction of the automaton and acceptance of exactly L(S) are NOT decided.",
+   note="trusted: rustc MIR; term evaluator; syn parse"),
+ "C03": dict(level="other", design="§2 C03", technique="static analysis: call-graph reachability + provenance (deep value-flow incl. &mut out-parameters) + blocking-branch rule over every function returning the table-construction Result; dominance rule in build::emit_recursive_ascent",
+   text="Decides that every construction that builds Ok(states) itself reaches Lookahead::conflicts, can fail, and has a branch on conflict evidence that blocks success; forwarders only pass on checked results; code generation is dominated by the Ok arm and the Err arm generates nothing. The 'iff' (exactness of conflict detection / lane-table resolution) is NOT decided.",
+   note="trusted: rustc MIR and callee resolution"),
+ "C09": dict(level="other", design="§2 C09", technique="static analysis: value-flow/affine-shape rules on the MIR of the precedence encoding sites, ADT/derive facts, dominance (sort before numbering), iterator-chain rules for index agreement, template order rule for the implicit skip, runtime Iterator::max rule",
+   text="Decides the precedence-encoding clause: one formula rung*k+base at both sites with base < k and Quoted > Regex, derived field-wise Ord with precedence first, entries sorted before numbering, rungs numbered len-idx, terminal indices = positions in the sorted list on both the generator and emitted side, implicit skip last, runtime picks the maximum pattern id. Longest-match behaviour of the DFA is NOT decided.",
+   note="trusted: rustc MIR; derive(Ord) semantics"),
+ "C10": dict(level="other", design="§2 C10", technique="static analysis: constant-argument call facts (builder options) compared between generator and runtime crates, Cargo feature graph (tomllib), value-flow for escape(), sibling dispatch rule, template quoting rule; repeated for the no-unicode configuration in the thorough tier",
+   text="Decides that build-time and run-time regex syntax options agree and follow the unicode feature, literals pass through regex_syntax::escape, both consumers dispatch Quoted/Regex identically and patterns are Display-rendered then {:?}-quoted. Round-tripping through regex_syntax Display is trusted, NOT decided.",
+   note="trusted: regex-syntax and regex-automata implement one syntax for equal options"),
+ "C23": dict(level="other", design="§2 C23", technique="static analysis: guard/dominance/value-flow rules on the MIR of gen_resolve_file, lalrpop_files, process_file_into, process_file, process_dir",
+   text="Decides the discovery/bookkeeping clauses: white-space names rejected before Ok, result = out_dir.join(name).with_extension(rs|report), walk follows links / keeps only regular .lalrpop files / routes errors through the symlink handler, rerun directive emitted before the gate, one writer call per file with its own resolved path. Path arithmetic over all trees is NOT decided.",
+   note="trusted: rustc MIR; walkdir semantics"),
+})
+NA.update({
+ "C02": "static analysis declines: the returned value is the user's action code evaluated over the derivation; what is not already forced by rustc's typing of the generated calls is a property of all derivations (values, order of side effects) with no structural necessary clause left beyond those claimed under C07/C17",
+ "C12": "static analysis declines: equivalence of the precedence/associativity expansion with the documented tiered grammar is language equivalence over all annotation layouts and inputs; no sound structural clause in reach (a frozen expected expansion would be a brittle proxy)",
+ "C14": "static analysis declines: equivalence of inlined and non-inlined grammars (language, values, order of fallible actions) over all inputs is behavioural; the only structural part (`?` under fallibility in emit_inline_action_code) is already claimed under C17",
+ "C18": "static analysis declines: panic freedom for all byte strings needs value-level invariants across passes for ~190 unwrap/expect/panic/assert sites plus every index/slice/arithmetic site; no sound value analysis in reach, and a frozen site inventory would alarm on harmless edits",
+ "C26": "static analysis declines: layout insensitivity and verbatim transfer depend on the hand-written scanner Tokenizer::code agreeing with Rust's lexical grammar on all texts (a language-level property of a character-level state machine); no structural necessary clause that is not a text-equality proxy",
+})
